@@ -38,6 +38,6 @@ func FutureAsk[M Message](ctx mixinDeliver, target ActorRef, message Message, ti
 	}
 
 	f := future.New[M](c.system.rc, c.ref.Derivation(convert.FastUint64ToString(c.nextChildGuid())), t)
-	system.rc.GetProcess(target).DeliveryUserMessage(target, f.Ref(), nil, message)
+	c.deliveryUserMessage(target, target, f.Ref(), nil, message)
 	return f
 }
